@@ -540,13 +540,18 @@ class MainRun(Harness):
             return
         exp = self.expected(inp)
         dflt = inp['dp'] if self.with_p else 22
-        for what in ('resolved', 'dialled'):
-            got = obs[what]
-            ok = len(got) == len(exp)
-            if ok:
-                for g, (eh, ep) in zip(got, exp):
-                    ok = s_and(ok, g is not None and g[0] == eh, g is not None and g[1] == (z_int(ep) if ep is not None else dflt))
-            yield '%s==targets-as-written' % what, ok
+        tgt = lambda g, eh, ep: s_and(g is not None and g[0] == eh, g is not None and g[1] == (z_int(ep) if ep is not None else dflt))
+        got = obs['dialled']
+        ok = len(got) == len(exp)
+        if ok:
+            for g, (eh, ep) in zip(got, exp):
+                ok = s_and(ok, tgt(g, eh, ep))
+        yield 'dialled==targets-as-written', ok
+        # the resolver is asked only about listed targets (an implementation may cache answers, so fewer calls than targets are fine)
+        ok = len(obs['resolved']) <= len(exp) and (len(obs['resolved']) >= 1 or not exp)
+        for g in obs['resolved']:
+            ok = s_and(ok, s_or(*[tgt(g, eh, ep) for eh, ep in exp]))
+        yield 'resolver-asked-only-about-listed-targets', ok
 
 
 def tasks(tier):
